@@ -782,5 +782,57 @@ def rule_f(ctx):
             'serialize_frame_prefix'), ok, detail or 'next bit written on all %d paths with content' % n)
 
 
+def rule_g(ctx):
+    """The string writer of SETUP (length byte + bytes) accepts every length its length field can carry: a rejecting
+    comparison in front of the pack must not be stricter than the format's capacity."""
+    from ..layout import struct_fields
+    rep = ctx.report
+    f = ctx.repo.func('rsocket.frame_helpers:pack_string')
+    caps = []
+    guards = []
+    n_ret = 0
+    for p in ctx.paths(f, None, symbolic_compare=False, stable_attrs=True):
+        for e in p.events:
+            if e.kind == 'call' and str(e.data.get('name')).endswith('struct.pack') and e.data.get('args') and \
+                    e.data['args'][0].is_const():
+                for (fo, w, signed), a in zip(struct_fields(e.data['args'][0].const), e.data['args'][1:]):
+                    caps.append(((1 << (8 * w - (1 if signed else 0))) - 1, strip_epoch(a.term)))
+        if p.outcome == 'return':
+            n_ret += 1
+        if p.outcome == 'raise':
+            # the last comparison of a length with a constant decides the rejection
+            for c in reversed([c for c in p.events if c.kind == 'cond']):
+                k = strip_epoch(c.data['key'])
+                if k[0] in ('lt', 'le', 'gt', 'ge') and len(k) >= 3:
+                    a, b = k[1], k[2]
+                    v = c.data['value']
+                    lo = None  # smallest rejected value
+                    if a[0] == 'const' and isinstance(a[1], int):  # const OP len
+                        if k[0] == 'lt':
+                            lo = a[1] + 1 if v else None
+                        elif k[0] == 'le':
+                            lo = a[1] if v else None
+                    elif b[0] == 'const' and isinstance(b[1], int):  # len OP const
+                        if k[0] == 'gt':
+                            lo = b[1] + 1 if v else None
+                        elif k[0] == 'ge':
+                            lo = b[1] if v else None
+                        elif k[0] == 'lt':
+                            lo = b[1] if not v else None
+                        elif k[0] == 'le':
+                            lo = b[1] + 1 if not v else None
+                    if lo is not None:
+                        guards.append((lo, c))
+                    break
+    if not caps or n_ret == 0:
+        raise AnalysisError('C02.g: pack_string packs no length')
+    cap = min(c for c, _ in caps)
+    bad = [(lo, c) for lo, c in guards if lo <= cap]
+    rep.add('C02.g', 'pack_string / accepts every length the length byte can carry', f, not bad,
+            'no rejecting comparison below the capacity of the length field (%d)' % cap if not bad else
+            'lengths from %d are rejected although the length field carries up to %d: a frame with a legal %d-byte '
+            'string cannot be encoded' % (bad[0][0], cap, cap))
+
+
 RULES = [('C02.a', rule_a), ('C02.b', rule_b), ('C02.b', rule_b2), ('C02.c', rule_c), ('C02.d', rule_d), ('C02.e', rule_e),
-         ('C02.f', rule_f)]
+         ('C02.f', rule_f), ('C02.g', rule_g)]
